@@ -30,12 +30,39 @@ package managerprop
 //   - Remove / Reconnect / Add at generated virtual instants: while a dial is
 //     pending (as its starter or as a waiter), in backoff, while a stream is up.
 //
+//   - the target CONFIGURATION (config.go): Target.dialer naming the default
+//     dialer, one of up to two named dialers registered through
+//     connection.NewManagerCustom, or a name that is not registered - each
+//     registered dialer is a dial function of its own with its own script per
+//     address (Scenario.NamedDials), so the dial functions' record says which
+//     dialer was asked to dial what, how often and with which outcome; one or
+//     several address lines with hop chains behind them, starting with one next
+//     hop or with several (createConn then makes several Connection calls per
+//     attempt, in map order); credentials inline / by password id with scripted
+//     lookup outcomes / unusable; further meta keys, also ones the manager
+//     generates itself, and receive_timeout values that set no timeout; the same
+//     *tpb.Target object handed to every Add of a name or a copy per Add, and one
+//     object shared by two names.
+//
 // Oracle: judge() of the random part on the callback trace (Connection calls of
 // the manager are recorded by a pass-through wrapper around the real
 // connection.Manager) plus the two clauses of real_run.go: no Connection call
 // of the manager stays outstanding longer than Config.Timeout (so a dial that
 // outlives it is a failed attempt, which judge() then wants retried within the
-// backoff bound), and every Remove returns.
+// backoff bound), and every Remove returns; and checkFreshDials: "failed sessions
+// are retried" is judged on the dial functions' own record - an error answer of
+// the connection manager must be the failure of a dial function call that ended
+// while the manager's Connection call was outstanding, not the remembered
+// failure of an earlier one (a ConnectError report without a new dial is not a
+// retry). Together with judge() - every failure of a managed target is followed
+// by a new Connection call within the backoff bound, a fresh Add by a first one -
+// this is what makes a target connect once its scripted dials succeed, also
+// after Remove + Add.
+//
+// Several next hops make a case depend on Go's map iteration order (which hop
+// is asked first); the oracle does not: the hops of one attempt are recognised
+// by judge() as Connection calls to distinct next hops at the instant the
+// previous one failed, with no error callback in between.
 //
 // Not generated (see validateReal): receive timeouts and slow Update callbacks
 // (other parts cover them; a Remove that legitimately waits for a shared dial
@@ -71,23 +98,50 @@ func (d DialStep) blocksUntilCtx() bool {
 	return d.Kind == "hang" || (d.Kind == "late-ok" && d.Ms == 0)
 }
 
+// sharedAddr: more than one target names the address as a next hop (whatever
+// their dialers: connection.Manager shares a connection per address).
 func (sc *Scenario) sharedAddr(addr int) bool {
 	n := 0
 	for i := range sc.Targets {
-		if sc.Targets[i].Addr == addr {
+		if sc.Targets[i].names(addr) {
 			n++
 		}
 	}
 	return n > 1
 }
 
+// dialScript is the script of dialer di (0 = default, k = k-th named) for address ai.
+func (sc *Scenario) dialScript(di, ai int) []DialStep {
+	by := sc.Dials
+	if di > 0 {
+		if di > len(sc.NamedDials) {
+			return nil
+		}
+		by = sc.NamedDials[di-1]
+	}
+	if ai < 0 || ai >= len(by) {
+		return nil
+	}
+	return by[ai]
+}
+
+// dialStepAt is the k-th step of that script (ok at once when it is exhausted).
+func (sc *Scenario) dialStepAt(di, ai, k int) DialStep {
+	if steps := sc.dialScript(di, ai); k >= 0 && k < len(steps) {
+		return steps[k]
+	}
+	return defaultDialStep
+}
+
 // maxFiniteDialMs is the longest scripted duration of a dial step that ends by itself.
 func (sc *Scenario) maxFiniteDialMs() int {
 	m := 0
-	for _, steps := range sc.Dials {
-		for _, d := range steps {
-			if !d.blocksUntilCtx() && d.Ms > m {
-				m = d.Ms
+	for di := 0; di <= len(sc.NamedDials); di++ {
+		for ai := 0; ai < nAddrs; ai++ {
+			for _, d := range sc.dialScript(di, ai) {
+				if !d.blocksUntilCtx() && d.Ms > m {
+					m = d.Ms
+				}
 			}
 		}
 	}
@@ -97,7 +151,7 @@ func (sc *Scenario) maxFiniteDialMs() int {
 // validateReal bounds the fields of the real part (and refuses them elsewhere).
 func (sc *Scenario) validateReal() error {
 	if !sc.Real {
-		if len(sc.Dials) != 0 {
+		if len(sc.Dials) != 0 || len(sc.NamedDials) != 0 {
 			return fmt.Errorf("dial scripts without real=true")
 		}
 		for i := range sc.Targets {
@@ -110,44 +164,54 @@ func (sc *Scenario) validateReal() error {
 	if len(sc.Dials) > nAddrs {
 		return fmt.Errorf("dial scripts for %d addresses (> %d)", len(sc.Dials), nAddrs)
 	}
+	if len(sc.NamedDials) > maxNamedDialers {
+		return fmt.Errorf("%d named dialers (> %d)", len(sc.NamedDials), maxNamedDialers)
+	}
+	for k := range sc.NamedDials {
+		if len(sc.NamedDials[k]) > nAddrs {
+			return fmt.Errorf("named dialer %d: dial scripts for %d addresses (> %d)", k+1, len(sc.NamedDials[k]), nAddrs)
+		}
+	}
 	if sc.anyRecvTimeout() || sc.anySlowCallback() {
 		return fmt.Errorf("real part: receive timeouts and slow Update callbacks are not combined with the real connection manager")
 	}
 	for i := range sc.Targets {
-		if sc.Targets[i].Meta != "" {
-			return fmt.Errorf("real part: target %d carries a receive_timeout meta value", i)
-		}
+		// (a receive_timeout meta value that sets no timeout - unparsable, "0s" - is fine:
+		// anyRecvTimeout above)
 		for j, a := range sc.Targets[i].Attempts {
 			if a.Dial != "ok" || a.DialDelayMs != 0 {
 				return fmt.Errorf("real part: target %d attempt %d scripts a dial (%q, %d ms); dials are scripted per address", i, j, a.Dial, a.DialDelayMs)
 			}
 		}
 	}
-	for ai, steps := range sc.Dials {
-		if len(steps) > 64 {
-			return fmt.Errorf("address %d: too many dial steps", ai)
-		}
-		for k, d := range steps {
-			switch d.Kind {
-			case "ok", "refused", "hang":
-				if d.Ms != 0 {
-					return fmt.Errorf("address %d dial %d: %s takes no duration", ai, k, d.Kind)
-				}
-			case "slow-ok", "slow-refused":
-				if d.Ms <= 0 {
-					return fmt.Errorf("address %d dial %d: %s needs a duration", ai, k, d.Kind)
-				}
-			case "late-ok":
-			default:
-				return fmt.Errorf("address %d dial %d: kind %q", ai, k, d.Kind)
+	for di := 0; di <= len(sc.NamedDials); di++ {
+		for ai := 0; ai < nAddrs; ai++ {
+			steps := sc.dialScript(di, ai)
+			if len(steps) > 64 {
+				return fmt.Errorf("dialer %d address %d: too many dial steps", di, ai)
 			}
-			if d.Ms < 0 || d.Ms > maxDelayMs || !validErrKind(d.Errs) {
-				return fmt.Errorf("address %d dial %d: duration %d / error kind %q", ai, k, d.Ms, d.Errs)
-			}
-			if sc.DialTimeoutMs == 0 && d.blocksUntilCtx() && sc.sharedAddr(ai) {
-				// see the package comment above: a waiter's Remove would never return,
-				// which is what connection.Manager.Connection documents
-				return fmt.Errorf("address %d dial %d: a dial that blocks until its context ends, on a shared address, without a dial timeout", ai, k)
+			for k, d := range steps {
+				switch d.Kind {
+				case "ok", "refused", "hang":
+					if d.Ms != 0 {
+						return fmt.Errorf("dialer %d address %d dial %d: %s takes no duration", di, ai, k, d.Kind)
+					}
+				case "slow-ok", "slow-refused":
+					if d.Ms <= 0 {
+						return fmt.Errorf("dialer %d address %d dial %d: %s needs a duration", di, ai, k, d.Kind)
+					}
+				case "late-ok":
+				default:
+					return fmt.Errorf("dialer %d address %d dial %d: kind %q", di, ai, k, d.Kind)
+				}
+				if d.Ms < 0 || d.Ms > maxDelayMs || !validErrKind(d.Errs) {
+					return fmt.Errorf("dialer %d address %d dial %d: duration %d / error kind %q", di, ai, k, d.Ms, d.Errs)
+				}
+				if sc.DialTimeoutMs == 0 && d.blocksUntilCtx() && sc.sharedAddr(ai) {
+					// see the package comment above: a waiter's Remove would never return,
+					// which is what connection.Manager.Connection documents
+					return fmt.Errorf("dialer %d address %d dial %d: a dial that blocks until its context ends, on a shared address, without a dial timeout", di, ai, k)
+				}
 			}
 		}
 	}
@@ -166,7 +230,12 @@ var (
 	realEventGaps  = []int{0, 1, 7, 50, 150, 333, 999, 1000, 1001, 1500, 2400, 3003, 5000, 9000, 20000, 61000}
 	realEventKinds = []string{"remove", "remove", "remove", "reconnect", "reconnect", "reconnect", "add", "add", "add", "remove-unknown"}
 	realMsgDelays  = []int{0, 0, 0, 10, 200, 1000, 2500}
-	realEndDelays  = []int{0, 0, 10, 500, 1000, 2500, 8000}
+	// the configuration dimension: how many named dialers are registered, which class of
+	// dialer a target names, receive_timeout meta values that set no timeout
+	realNamedCounts   = []int{0, 1, 1, 2, 2}
+	realDialerClasses = []string{"default", "default", "default", "default", "named", "named", "named", "named", "named", "unregistered"}
+	realMetas         = []string{"", "", "", "", "", "bogus", "0s"}
+	realEndDelays     = []int{0, 0, 10, 500, 1000, 2500, 8000}
 )
 
 func genDialStep(t *rapid.T) DialStep {
@@ -212,6 +281,9 @@ func genRealScenario(t *rapid.T) *Scenario {
 	sc.TmplPrefix = rapid.Bool().Draw(t, "tmpl-prefix")
 	n := rapid.IntRange(1, 3).Draw(t, "targets")
 	share := rapid.SampledFrom([]string{"all", "all", "none", "any"}).Draw(t, "share")
+	// the dialers registered with the connection manager besides the default one,
+	// and which of them (or a name that is not registered) each target names
+	nNamed := rapid.SampledFrom(realNamedCounts).Draw(t, "named-dialers")
 	for i := 0; i < n; i++ {
 		tg := Target{}
 		switch share {
@@ -225,32 +297,55 @@ func genRealScenario(t *rapid.T) *Scenario {
 		tg.Late = i > 0 && rapid.IntRange(0, 3).Draw(t, "late") == 0
 		tg.Attempts = rapid.SliceOfN(rapid.Custom(genRealAttempt), 0, 4).Draw(t, "attempts")
 		tg.Errs = rapid.SampledFrom(errKindsGen).Draw(t, "errs")
+		if !genSameAs(t, sc, &tg, i) {
+			switch c := rapid.SampledFrom(realDialerClasses).Draw(t, "dialer"); {
+			case c == "named" && nNamed > 0:
+				tg.Dialer = rapid.IntRange(1, nNamed).Draw(t, "named")
+			case c == "unregistered":
+				tg.Dialer = unregisteredDialer
+			}
+			tg.Meta = rapid.SampledFrom(realMetas).Draw(t, "meta")
+			genConfig(t, sc, &tg, i, true)
+		}
 		sc.Targets = append(sc.Targets, tg)
 	}
-	sc.Dials = make([][]DialStep, n)
-	for ai := 0; ai < n; ai++ {
-		used := false
-		for i := range sc.Targets {
-			used = used || sc.Targets[i].Addr == ai
-		}
-		if !used {
-			continue
-		}
-		minSteps := 0
-		if sc.sharedAddr(ai) {
-			minSteps = 1
-		}
-		sc.Dials[ai] = rapid.SliceOfN(rapid.Custom(genDialStep), minSteps, 6).Draw(t, "dials")
-		if sc.DialTimeoutMs == 0 && sc.sharedAddr(ai) {
-			// see validateReal: without a dial timeout a dial on a shared address must end by itself
-			for k := range sc.Dials[ai] {
-				d := &sc.Dials[ai][k]
-				switch {
-				case d.Kind == "hang":
-					d.Kind, d.Ms = "slow-refused", realDialMs[(k+ai)%len(realDialMs)]
-				case d.blocksUntilCtx():
-					d.Ms = realDialMs[(k+ai)%len(realDialMs)]
+	sc.NoCredClient = rapid.IntRange(0, 19).Draw(t, "no-cred-client") == 0
+	sc.Dials = make([][]DialStep, nAddrs)
+	sc.NamedDials = make([][][]DialStep, nNamed)
+	for k := range sc.NamedDials {
+		sc.NamedDials[k] = make([][]DialStep, nAddrs)
+	}
+	// a script per (dialer, address) some target can make the connection manager dial
+	for di := 0; di <= nNamed; di++ {
+		for ai := 0; ai < nAddrs; ai++ {
+			used := false
+			for i := range sc.Targets {
+				used = used || (sc.Targets[i].Dialer == di && sc.Targets[i].names(ai))
+			}
+			if !used {
+				continue
+			}
+			minSteps := 0
+			if sc.sharedAddr(ai) {
+				minSteps = 1
+			}
+			steps := rapid.SliceOfN(rapid.Custom(genDialStep), minSteps, 6).Draw(t, "dials")
+			if sc.DialTimeoutMs == 0 && sc.sharedAddr(ai) {
+				// see validateReal: without a dial timeout a dial on a shared address must end by itself
+				for k := range steps {
+					d := &steps[k]
+					switch {
+					case d.Kind == "hang":
+						d.Kind, d.Ms = "slow-refused", realDialMs[(k+ai)%len(realDialMs)]
+					case d.blocksUntilCtx():
+						d.Ms = realDialMs[(k+ai)%len(realDialMs)]
+					}
 				}
+			}
+			if di == 0 {
+				sc.Dials[ai] = steps
+			} else {
+				sc.NamedDials[di-1][ai] = steps
 			}
 		}
 	}
